@@ -189,6 +189,17 @@ def run(chk, repo):
     cb = docstring_free(cs.body)
     chk.decide(unparse(cb[0]) == "self.value = value", "C16.control", W("ControlStream.__init__"), short(cb[0]),
                why="initial value stored as attribute", node=cs)
+    inits_ = [st for st in cb if isinstance(st, ast.Expr) and isinstance(st.value, ast.Call)
+              and isinstance(st.value.func, ast.Attribute) and st.value.func.attr == "__init__"]
+    ok_i = len(inits_) == 1 and cb[-1] is inits_[0] and len(inits_[0].value.args) == 1 and (
+        unparse(inits_[0].value.func.value) in ("super(ControlStream, self)", "super()")
+        or unparse(inits_[0].value.func) == "Stream.__init__")
+    chk.decide(ok_i, "C16.control", W("ControlStream.__init__"), short(inits_[0]) if inits_ else "no base constructor call",
+               why="the stream's data must be the generator that reads the attribute", node=cs)
+    sx = repo.find(LS, "Streamix.__init__")
+    sd = [unparse(d) for d in sx.args.defaults]
+    chk.decide(sd == ["False", "0.0"], "C16.init", W("Streamix.__init__"), "defaults (keep, zero) = %s" % sd,
+               why="a mixer ends with its last sound unless keep; silence is 0.", node=sx)
     g = repo.find(LS, "ControlStream.__init__.data_generator", required=False)
     if g is not None:
         gb = docstring_free(g.body)
